@@ -22,6 +22,7 @@ LEVEL_TEXT = (
     "scope search is innermost-first; name lookup order and reserved-keyword table are as documented"
     "; a nested definition is found in every statement position and every parameter kind becomes a closure cell when an inner scope exists (host symtable as oracle)"
     "; the name pre-pass classifies locals / free variables / declared globals of probe functions as the host's symtable does (also through nonlocal declarations, defaults and base classes of nested definitions, and for declarations in branches never executed); name lookup follows Python's precedence on a table of scopes; a class statement keeps the closure cell of its name and hides no inherited __init__; captured cells are shared at call time whether or not they are bound yet"
+    "; the interpreter's forwarding functions take their parameters positional-only next to **kwargs; module-level global/nonlocal as the host compiler; natively compiled definitions never see closure cells; call shapes with keyword/** arguments"
 )
 LEVEL_NOTE = (
     "trusted: host inspect/symtable as oracle for binding and local-name rules; the abstract evaluator; exceptions are "
